@@ -438,6 +438,86 @@ pub fn gen_case(seed: u64, idx: u64) -> Case {
     c
 }
 
+/// Through the real HTTP/1.1 and HTTP/2 codecs (in-memory session, real Tunnel, scripted origin): header *values* of the
+/// origin's response reach the client byte for byte, including bytes outside ASCII (obs-text such as ISO-8859-1 file
+/// names), which `http` carries opaquely; the mirror-stream sweep above only sees header maps, not what a codec writes.
+fn wire_part(rep: &Arc<Reporter>, args: &Args) {
+    use crate::kit::*;
+    use crate::tun::*;
+    use tokio::io::AsyncWriteExt;
+    use trusttunnel::verif::tunnel::{Fwd, Policy, Proto};
+    let dir = env::work_dir(&args.root, "c17w");
+    let rt = env::rt_paused();
+    let ctx = Arc::new(env::make_ctx(&dir, env::CtxOpts::default()));
+    // (header name, value bytes)
+    let values: Vec<(&str, Vec<u8>)> = vec![
+        ("content-disposition", b"attachment; filename=\"r\xe9sum\xe9.txt\"".to_vec()),
+        ("x-latin1", vec![b'c', b'a', b'f', 0xe9, b' ', 0xa0, 0xff, b'z']),
+        ("x-utf8", "na\u{ef}ve \u{2713}".as_bytes().to_vec()),
+        ("x-ascii", b"plain value; q=0.5, *".to_vec()),
+        ("x-high", (0x80u8..=0xff).collect()),
+    ];
+    rt.block_on(async {
+        let mut id = 170_000u64;
+        for proto in [Proto::H1, Proto::H2] {
+            for body_len in [0usize, 11] {
+                id += 1;
+                let mut origin = b"HTTP/1.1 200 OK\r\nServer: origin\r\n".to_vec();
+                for (n, v) in &values { origin.extend_from_slice(n.as_bytes()); origin.extend_from_slice(b": "); origin.extend_from_slice(v); origin.extend_from_slice(b"\r\n"); }
+                origin.extend_from_slice(format!("Content-Length: {}\r\n\r\n", body_len).as_bytes());
+                origin.extend_from_slice(&b"hello world"[..body_len]);
+                let canned = origin.clone();
+                let fwd = RecFwd::new(move |_| Outcome::Canned(canned.clone()));
+                let how = How::Tunnel(Fwd::Scripted(fwd.clone()), Policy::Default);
+                let mut got: Vec<(String, Vec<u8>)> = vec![];
+                let mut status = None;
+                match proto {
+                    Proto::H1 => {
+                        let sess = open_session(&ctx, Proto::H1, how, "main.test", true, id);
+                        let (mut rd, mut wr) = tokio::io::split(sess.client);
+                        let _ = wr.write_all(b"GET http://origin.test:8080/p HTTP/1.1\r\nHost: origin.test:8080\r\n\r\n").await;
+                        let (raw, _) = read_until_quiet(&mut rd, Duration::from_millis(800), 1 << 20).await;
+                        let head_end = raw.windows(4).position(|w| w == b"\r\n\r\n").map(|p| p + 2).unwrap_or(raw.len());
+                        let mut lines = raw[..head_end].split(|b| *b == b'\n');
+                        if let Some(l) = lines.next() { status = String::from_utf8_lossy(l).split(' ').nth(1).and_then(|s| s.parse::<u16>().ok()); }
+                        for l in lines {
+                            let l = l.strip_suffix(b"\r").unwrap_or(l);
+                            if let Some(c) = l.iter().position(|b| *b == b':') {
+                                let v = &l[c + 1..];
+                                let v = v.strip_prefix(b" ").unwrap_or(v);
+                                got.push((String::from_utf8_lossy(&l[..c]).to_lowercase(), v.to_vec()));
+                            }
+                        }
+                    }
+                    _ => {
+                        let sess = open_session(&ctx, Proto::H2, how, "main.test", true, id);
+                        if let Ok((mut h2, conn)) = h2::client::handshake(sess.client).await {
+                            let driver = tokio::spawn(async move { let _ = conn.await; });
+                            let req = http::Request::builder().method("GET").uri("http://origin.test:8080/p").body(()).unwrap();
+                            if let Ok((resp, _)) = h2.send_request(req, true) {
+                                if let Ok(Ok(r)) = tokio::time::timeout(Duration::from_secs(5), resp).await {
+                                    status = Some(r.status().as_u16());
+                                    for (n, v) in r.headers() { got.push((n.as_str().to_string(), v.as_bytes().to_vec())); }
+                                }
+                            }
+                            driver.abort();
+                        }
+                    }
+                }
+                for (n, v) in &values {
+                    rep.evals(1);
+                    rep.distinct(common::fnv(format!("wire|{:?}|{}|{}", proto, body_len, n).as_bytes()));
+                    let seen: Vec<&Vec<u8>> = got.iter().filter(|(k, _)| k == n).map(|(_, v)| v).collect();
+                    let w = json!({"kind":"forwarded-wire","protocol":format!("{:?}", proto),"header":n,"origin_value_hex":common::hex(v),"client_value_hex":seen.iter().map(|x| common::hex(x)).collect::<Vec<_>>(),"status":status});
+                    if status != Some(200) { rep.violation("wire: plain-HTTP response through the real codec not delivered", w); break; }
+                    if seen.len() != 1 || seen[0] != v { rep.violation(&format!("wire: response header value altered on its way to the {} client", if proto == Proto::H1 { "HTTP/1.1" } else { "HTTP/2" }), w); }
+                    else { rep.tally("wire: response header value delivered byte for byte through the real codec", 1); }
+                }
+            }
+        }
+    });
+}
+
 pub fn run(args: &Args) -> i32 {
     let rep = Arc::new(Reporter::new(
         args,
@@ -504,5 +584,6 @@ pub fn run(args: &Args) -> i32 {
         for s in samples { rep.sample(s); }
         local.merge_into(&rep);
     }
+    wire_part(&rep, args);
     rep.finish()
 }
